@@ -373,6 +373,13 @@ def _user_programs(rng):
         for label, d in (("unexpected-then-loaderror", {"n": "boom", "s": 5, "m": 1}), ("loaderror-then-unexpected", {"n": 1, "s": 5, "m": "boom"}),
                          ("unexpected-loaderror-unexpected", {"n": "boom", "s": 5, "m": "boom"}), ("mild-then-unexpected", {"n": "mild", "s": [], "m": "boom"})):
             data.append((f"three:{label}", ("other-hint", hint3, d)))
+        # the same two-errors-in-one-place shape inside containers: a dict ITEM whose key is refused (LoadError) and whose value loader
+        # crashes - every mode loads the key first (defect #74: DISABLE evaluated the value first and so disagreed with FIRST) -, and a
+        # list whose element 0 is refused and whose element 1 crashes
+        import datetime  # noqa: PLC0415
+        data.append(("container:dict-badkey-then-unexpected-value", ("other-hint", t.Union[t.Dict[datetime.date, int], t.Dict[str, str]], {"a": "boom"})))
+        data.append(("container:dict-badkey-then-unexpected-value", ("other-hint", t.Dict[str, t.Union[t.Dict[datetime.date, int], t.Dict[str, str]]], {"k": {"a": "boom", "2020-01-01": "1"}})))
+        data.append(("container:list-loaderror-then-unexpected", ("other-hint", t.Union[t.List[int], t.List[str]], ["mild", "boom"])))
     return f"{how}/{name}/{exc_cls.__name__}", hint, recipe, data, exc_cls
 
 
@@ -417,6 +424,9 @@ def run_user_code_case(ctx, rng):
                     # known finding: DISABLE / FIRST stop at the LoadError of an earlier field (the union goes on to its next case), ALL also
                     # reaches the later field whose loader crashes, and refuses
                     key = "load:success-disagreement:loaderror-before-unexpected-error-in-one-model"
+                elif label.startswith("container:") and kinds[DebugTrail.DISABLE] and kinds[DebugTrail.FIRST] and not kinds[DebugTrail.ALL] and not issubclass(exc_cls, LoadError):
+                    # the same known mechanism with the two errors inside one container (one dict item / two list elements)
+                    key = "load:success-disagreement:loaderror-before-unexpected-error-in-one-container"
                 ctx.violation(key, f"{desc} <- {label} {d!r:.200} [{'strict' if sc else 'lax'}]: "
                               + "; ".join(f"{dt.name}={o!r:.120}" for dt, o in outs.items()), info)
                 continue
